@@ -41,6 +41,7 @@ class Inst(object):
         self.refused = False
         self.softdone = 0
         self.born = None
+        self.cred_sent = {}
 
 
 class V(object):
@@ -469,6 +470,8 @@ class Monitor(object):
                 want = self.expected_query(i, protoname, verb, text)
                 if text != want:
                     self.v("C06", "query-content", "query %r; the client's own data gives %r" % (text, want), sig="query-content:" + verb)
+                if verb in ("LOGIN", "LOGIN2"):
+                    i.cred_sent[svc] = i.pw if text == want else None
         if first_in_step:
             ctx["step_queried"].add((cid, svc))
             i.queried[svc] = i.queried.get(svc, 0) + 1
@@ -526,6 +529,14 @@ class Monitor(object):
                 if i.queried.get(svc, 0) == 0 and self.prereq(i, protoname):
                     self.v("C06", "query-skipped", "client %d: everything protocol %s of %s needs is known (or hurry-up) at the end of step %r but no query was sent" % (
                         cid, protoname, svc, proto.render(self.ev)), sig="query-skipped:" + protoname)
+            # credentials: a service whose protocol carries them must have been sent the client's latest
+            # well-formed password once everything that protocol needs is known
+            if i.pw is not None:
+                for svc, protoname in self.cfg.services:
+                    if protoname in proto.LOGIN_TYPES and self.prereq(i, protoname, "LOGIN") and i.cred_sent.get(svc) != i.pw:
+                        self.v("C06", "credentials-not-forwarded", "client %d: %s (%s) has not been sent the client's latest credentials %r by the end of step %r (last sent: %r)" % (
+                            cid, svc, protoname, i.pw, proto.render(self.ev), i.cred_sent.get(svc)), sig="credentials-not-forwarded:" + protoname)
+                        i.cred_sent[svc] = i.pw   # report once
             if not self.data_ok(i):
                 continue
             waiting = bool(i.awaiting) and not (i.timeout_fired and not i.query_after_timeout)
